@@ -126,3 +126,77 @@ func VP_C03_InvalidNamedFiles() {
 	vpAssert("nothing-else-listed", len(lst) <= 1 && vpImp(!valid, len(lst) == 0))
 	vpCover("end")
 }
+
+// vpOthers: name -> content of every entry of dir other than the target's two files and .tmp.
+func vpOthers(dir, user string) map[string]string {
+	out := map[string]string{}
+	ents, _ := os.ReadDir(dir)
+	for _, e := range ents {
+		n := e.Name()
+		if n == ".tmp" || n == user+".user" || n == user+".admin" {
+			continue
+		}
+		b, _ := os.ReadFile(filepath.Join(dir, n))
+		out[n] = string(b)
+	}
+	return out
+}
+
+func vpSameMap(a, b map[string]string) bool {
+	if len(a) != len(b) {
+		return false
+	}
+	for k, v := range a {
+		if w, ok := b[k]; !ok || w != v {
+			return false
+		}
+	}
+	return true
+}
+
+// VP_C03_OnlyTheTargetsOwnFiles: valid names (and base directories) that contain what looks like
+// an extension: every operation touches <base>/<name>.user, <base>/<name>.admin and the work
+// area only - no other entry of the base directory, nothing in the sibling store.
+func VP_C03_OnlyTheTargetsOwnFiles() {
+	root := vpTempDir()
+	base := filepath.Join(root, "corp.users", "auth")
+	sib := filepath.Join(root, "corp.admins", "auth")
+	if os.MkdirAll(base, 0700) != nil || os.MkdirAll(sib, 0700) != nil {
+		panic("setup")
+	}
+	d, ds := vpNewDir(base, 1), vpNewDir(sib, 1)
+	users := []string{"alice", "backup.user", "ops.admins", "john@lists.users.example.org"}
+	if d.AddUser("adm", "admpw", true) != nil || ds.AddUser("root", "rootpw", true) != nil {
+		panic("setup")
+	}
+	for _, u := range users {
+		if d.AddUser(u, "pw-"+u, false) != nil {
+			panic("setup")
+		}
+	}
+	u := users[vpChoose("user", len(users))]
+	sibBefore := vpFsSnapshot(sib)
+	before := vpOthers(base, u)
+	var err error
+	switch vpChoose("op", 4) {
+	case 0:
+		err = d.SetAdmin(u, true)
+		if err == nil && vpChoose("and-back", 2) == 1 {
+			err = d.SetAdmin(u, false)
+		}
+	case 1:
+		err = d.UpdateUser(u, vpStr("newpw", 2))
+	case 2:
+		d.RemoveUser(u)
+	case 3:
+		err = d.AddUser(u, "again", false) // exists already: refused
+	}
+	_ = err
+	vpAssert("other-entries-of-the-base-directory-untouched", vpSameMap(before, vpOthers(base, u)))
+	vpAssert("sibling-store-untouched", vpFsSame(sibBefore, vpFsSnapshot(sib)))
+	ex, _, _ := d.Exists(u)
+	_, e1 := os.Stat(filepath.Join(base, u+".user"))
+	_, e2 := os.Stat(filepath.Join(base, u+".admin"))
+	vpAssert("the-user-exists-iff-one-of-its-own-files-does", ex == (e1 == nil || e2 == nil))
+	vpCover("end")
+}
